@@ -27,6 +27,8 @@ pub struct SCol {
     pub special: bool,
     /// physical INTEGER (Int32) column: mixing it with BIGINT in join keys / COALESCE / CASE hits engine defects (feature `mixed_width`)
     pub narrow: bool,
+    /// column of a derived table / CTE / VALUES list (grouped SUM over such a column hits an engine defect: feature `sum_derived`)
+    pub derived: bool,
     /// a few values that occur in the column (literals for comparisons)
     pub samples: Vec<Val>,
 }
@@ -89,7 +91,7 @@ impl<'a> Gen<'a> {
     fn tag(&mut self, f: &str) { self.tags.insert(format!("f:{}", f)); }
     /// feature allowed and drawn with probability num/den → tags it
     fn maybe(&mut self, f: &str, num: u64, den: u64) -> bool { if self.on(f) && self.r.chance(num, den) { self.tag(f); true } else { false } }
-    fn alias(&mut self) -> String { self.n_alias += 1; format!("c{}", self.n_alias) }
+    fn alias(&mut self) -> String { self.n_alias += 1; format!("q{}", self.n_alias) }   // never collides with base column names a0…e3
     fn rel_alias(&mut self) -> String { self.n_rel += 1; format!("x{}", self.n_rel) }
 
     /// generate the `n`-th case of a run: primary stratum rotates over `o.strata`
@@ -108,11 +110,11 @@ impl<'a> Gen<'a> {
             for row in tb.rows.iter().take(40) { let v = &row[ci]; if !v.is_null() && !samples.contains(v) { samples.push(v.clone()); if samples.len() >= 6 { break; } } }
             SCol { ty: c.cty.ty(), sql: format!("{}.{}", alias, c.name), name: c.name.clone(), nullable: c.null_pct > 0,
                    bits: if c.boundary || c.special || !c.cty.ty().numeric() { None } else if c.unique { Some(12) } else { Some(6) },
-                   special: c.special, narrow: c.cty == super::ColTy::I32, samples }
+                   special: c.special, narrow: c.cty == super::ColTy::I32, derived: false, samples }
         }).collect()
     }
     fn requalify(out: &Scope, alias: &str) -> Scope {
-        out.iter().map(|c| SCol { sql: format!("{}.{}", alias, c.name), ..c.clone() }).collect()
+        out.iter().map(|c| SCol { sql: format!("{}.{}", alias, c.name), derived: true, ..c.clone() }).collect()
     }
 
     // ------------------------------------------------------------ literals and scalars
@@ -419,7 +421,13 @@ impl<'a> Gen<'a> {
     fn join_rel(&mut self, n: usize) -> (Rel, Scope) {
         let (mut rel, mut sc) = self.base_rel(true);
         for _ in 0..n {
-            let (r2, sc2) = self.base_rel(true);
+            let (mut r2, mut sc2) = self.base_rel(true);
+            // two derived relations with equal column names in one FROM resolve wrongly in the engine (feature `dup_derived_names`)
+            let clash = sc2.iter().any(|c| c.derived && sc.iter().any(|d| d.derived && d.name == c.name));
+            if clash && !self.on("dup_derived_names") {
+                let t = self.r.below(self.cat.tables.len() as u64) as usize; let a = self.rel_alias();
+                sc2 = self.table_scope(t, &a); r2 = Rel::Table { t, name: self.cat.tables[t].name.clone(), alias: a };
+            } else if clash { self.tag("dup_derived_names"); }
             let mut jts = vec![JoinType::Inner, JoinType::Inner];
             if self.on("outer_join") { jts.extend([JoinType::Left, JoinType::Right, JoinType::Full]); }
             if self.on("semi_join") { jts.extend([JoinType::Semi, JoinType::Anti]); }
@@ -462,13 +470,13 @@ impl<'a> Gen<'a> {
             }).collect();
             rows.push(row);
         }
-        let out: Scope = tys.iter().enumerate().map(|(i, &ty)| SCol { ty, sql: format!("column{}", i), name: format!("column{}", i), nullable: true, bits: if ty.numeric() { Some(5) } else { None }, special: false, narrow: false, samples: vec![] }).collect();
+        let out: Scope = tys.iter().enumerate().map(|(i, &ty)| SCol { ty, sql: format!("column{}", i), name: format!("column{}", i), nullable: rows.iter().any(|r: &Vec<Expr>| matches!(r[i], Expr::Lit(Val::Null, _))), bits: if ty.numeric() { Some(5) } else { None }, special: false, narrow: false, derived: false, samples: vec![] }).collect();
         self.tag("values");
         (QueryExpr::of(Body::Values(rows)), out)
     }
 
     // ------------------------------------------------------------ SELECT blocks
-    fn agg_call(&mut self, sc: &Scope) -> (AggCall, Ty, Option<u32>) {
+    fn agg_call(&mut self, sc: &Scope, keyed: bool) -> (AggCall, Ty, Option<u32>) {
         let k = self.r.below(10);
         if k < 2 || sc.is_empty() { return (AggCall { f: AggFn::CountStar, arg: None, distinct: false }, Ty::Int, Some(12)); }
         let distinct = self.on("agg_distinct") && self.r.chance(1, 5);
@@ -478,6 +486,10 @@ impl<'a> Gen<'a> {
             // SUM / AVG over numeric expressions whose magnitude is tracked
             let ty = if self.cols_of(sc, Ty::F64).is_empty() || self.r.chance(1, 2) { Ty::Int } else { Ty::F64 };
             let (a, bits) = self.scalar(sc, ty, 1);
+            let mut over_derived = false;
+            a.visit(&mut |e| if let Expr::Col { i, .. } = e { if sc[*i].derived { over_derived = true; } });
+            if over_derived && keyed && !self.on("sum_derived") { return (AggCall { f: AggFn::CountStar, arg: None, distinct: false }, Ty::Int, Some(12)); }
+            if over_derived && keyed { self.tag("sum_derived"); }
             if let Some(b) = bits { if b <= 28 {
                 if self.on("avg") && self.r.chance(1, 3) { self.tag("avg"); return (AggCall { f: AggFn::Avg, arg: Some(a), distinct }, Ty::F64, None); }
                 self.tag("sum");
@@ -488,6 +500,8 @@ impl<'a> Gen<'a> {
         if tys.is_empty() { return (AggCall { f: AggFn::CountStar, arg: None, distinct: false }, Ty::Int, Some(12)); }
         let ty = *self.r.pick(&tys);
         let cols = self.cols_of(sc, ty); let i = *self.r.pick(&cols);
+        // MIN / MAX of a string group without a non-NULL value comes out as '' in the engine: feature `null_str_minmax`
+        if ty == Ty::Str && sc[i].nullable && !self.on("null_str_minmax") { return (AggCall { f: AggFn::Count, arg: Some(Self::col_ref(sc, i)), distinct: false }, Ty::Int, Some(12)); }
         self.tag("minmax");
         let arg = self.wide_ref(sc, i);
         (AggCall { f: if self.r.chance(1, 2) { AggFn::Min } else { AggFn::Max }, arg: Some(arg), distinct: false }, ty, sc[i].bits)
@@ -515,7 +529,9 @@ impl<'a> Gen<'a> {
             let gs = primary == "gsets";
             let nk = if gs { 1 + self.r.below(3) as usize } else { self.r.below(3) as usize };
             let mut keys = vec![]; let mut post: Scope = vec![];
-            let keyable: Vec<usize> = sc.iter().enumerate().filter(|(_, c)| (c.ty != Ty::F64 || self.on("float_key")) && (c.ty != Ty::Bool || self.on("bool_key"))).map(|(i, _)| i).collect();
+            // composite keys / grouping sets with real NULL keys lose groups in the engine (A.21): feature `null_multi_key`
+            let strict_null = (gs || nk >= 2) && !self.on("null_multi_key");
+            let keyable: Vec<usize> = sc.iter().enumerate().filter(|(_, c)| !(strict_null && c.nullable)).filter(|(_, c)| (c.ty != Ty::F64 || self.on("float_key")) && (c.ty != Ty::Bool || self.on("bool_key")) && (!(c.ty == Ty::Int && c.nullable) || self.on("null_int_key"))).map(|(i, _)| i).collect();
             for _ in 0..nk {
                 if keyable.is_empty() { break; }
                 let i = *self.r.pick(&keyable);
@@ -528,13 +544,14 @@ impl<'a> Gen<'a> {
                 } else { post.push(sc[i].clone()); keys.push(Self::col_ref(&sc, i)); }
             }
             if keys.len() >= 2 { self.tag("multi_key"); }
+            let gs = gs && !keys.is_empty();
             let na = if keys.is_empty() { 1 + self.r.below(3) as usize } else if self.on("group_noagg") && self.r.chance(1, 6) { 0 } else { 1 + self.r.below(3) as usize };
             if na == 0 { self.tag("group_noagg"); }
             let mut aggs = vec![];
             for _ in 0..na {
-                let (c, ty, bits) = self.agg_call(&sc);
+                let (c, ty, bits) = self.agg_call(&sc, !keys.is_empty());
                 if gs && aggs.iter().any(|a: &AggCall| a.sql() == c.sql()) { continue; }
-                post.push(SCol { ty, sql: c.sql(), name: String::new(), nullable: true, bits, special: false, narrow: false, samples: vec![] });
+                post.push(SCol { ty, sql: c.sql(), name: String::new(), nullable: !matches!(c.f, AggFn::Count | AggFn::CountStar), bits, special: false, narrow: false, derived: false, samples: vec![] });
                 aggs.push(c);
             }
             let sets = if gs {
@@ -553,7 +570,7 @@ impl<'a> Gen<'a> {
                 };
                 self.tag(match kind { GsKind::Rollup => "rollup", GsKind::Cube => "cube", GsKind::Sets => "grouping_sets" });
                 let all: Vec<String> = keys.iter().map(|k| k.sql()).collect();
-                post.push(SCol { ty: Ty::Int, sql: format!("GROUPING({})", all.join(", ")), name: String::new(), nullable: false, bits: Some(4), special: false, narrow: false, samples: vec![] });
+                post.push(SCol { ty: Ty::Int, sql: format!("GROUPING({})", all.join(", ")), name: String::new(), nullable: false, bits: Some(4), special: false, narrow: false, derived: false, samples: vec![] });
                 // keys absent from a set come out NULL
                 for c in post.iter_mut().take(n) { c.nullable = true; }
                 Some((kind, sets))
@@ -573,25 +590,27 @@ impl<'a> Gen<'a> {
                 o.push(SCol { sql: al.clone(), name: al.clone(), bits, samples: vec![], ..post[i].clone() });
                 proj.push((e, al));
             }
-            if proj.is_empty() { let al = self.alias(); proj.push((Expr::lit_i(1), al.clone())); o.push(SCol { ty: Ty::Int, sql: al.clone(), name: al, nullable: false, bits: Some(1), special: false, narrow: false, samples: vec![] }); }
+            if proj.is_empty() { let al = self.alias(); proj.push((Expr::lit_i(1), al.clone())); o.push(SCol { ty: Ty::Int, sql: al.clone(), name: al, nullable: false, bits: Some(1), special: false, narrow: false, derived: false, samples: vec![] }); }
             sel = Select { from: Some(from), where_, group: Some(Group { keys, aggs, sets }), having, proj, distinct: false };
             out = o;
         } else {
             // plain projection
             let distinct = primary == "distinct" || self.maybe("distinct", 1, 10);
-            if distinct { self.tag("distinct"); }
             let n = 1 + self.r.below(4) as usize;
             let mut proj = vec![]; let mut o: Scope = vec![];
             let exprs = primary == "case" || self.on("case") && self.r.chance(1, 4);
             // DISTINCT groups by every output column: no BOOLEAN / DOUBLE keys unless allowed
-            let usable: Vec<usize> = (0..sc.len()).filter(|&i| !distinct || ((sc[i].ty != Ty::Bool || self.on("bool_key")) && (sc[i].ty != Ty::F64 || self.on("float_key")))).collect();
+            let usable_probe = (0..sc.len()).any(|i| (sc[i].ty != Ty::Bool || self.on("bool_key")) && (sc[i].ty != Ty::F64 || self.on("float_key")) && (!sc[i].nullable || self.on("null_distinct")));
+            let distinct = distinct && usable_probe;
+            if distinct { self.tag("distinct"); }
+            let usable: Vec<usize> = (0..sc.len()).filter(|&i| !distinct || ((sc[i].ty != Ty::Bool || self.on("bool_key")) && (sc[i].ty != Ty::F64 || self.on("float_key")) && (!sc[i].nullable || self.on("null_distinct")))).collect();
             for _ in 0..n {
                 let al = self.alias();
-                if usable.is_empty() || (exprs && self.r.chance(1, 2)) {
+                if usable.is_empty() || (exprs && (!distinct || self.on("null_distinct")) && self.r.chance(1, 2)) {
                     let tys: Vec<Ty> = usable.iter().map(|&i| sc[i].ty).collect();
                     let ty = if tys.is_empty() { Ty::Int } else { *self.r.pick(&tys) };
                     let (e, bits) = self.scalar(&sc, ty, self.o.max_depth.min(2));
-                    o.push(SCol { ty, sql: al.clone(), name: al.clone(), nullable: true, bits, special: false, narrow: false, samples: vec![] });
+                    o.push(SCol { ty, sql: al.clone(), name: al.clone(), nullable: true, bits, special: false, narrow: false, derived: false, samples: vec![] });
                     proj.push((e, al));
                 } else {
                     let i = *self.r.pick(&usable);
@@ -605,7 +624,7 @@ impl<'a> Gen<'a> {
         }
         if primary == "subquery" && self.on("scalar_select") && self.r.chance(1, 4) {
             // correlated scalar subquery in the SELECT list
-            if let Some((e, ty)) = self.scalar_select_item(&sel) { let al = self.alias(); sel.proj.push((e, al.clone())); let mut o2 = out.clone(); o2.push(SCol { ty, sql: al.clone(), name: al, nullable: true, bits: None, special: false, narrow: false, samples: vec![] }); return self.finish_block(sel, o2, primary, top); }
+            if let Some((e, ty)) = self.scalar_select_item(&sel) { let al = self.alias(); sel.proj.push((e, al.clone())); let mut o2 = out.clone(); o2.push(SCol { ty, sql: al.clone(), name: al, nullable: true, bits: None, special: false, narrow: false, derived: false, samples: vec![] }); return self.finish_block(sel, o2, primary, top); }
         }
         self.finish_block(sel, out, primary, top)
     }
@@ -679,10 +698,18 @@ impl<'a> Gen<'a> {
     }
     fn setop_body(&mut self, depth: usize) -> (Body, Scope) {
         // left operand: free choice of 1–3 columns of one table; right operand(s): same types
-        let (from, sc) = self.base_rel(false);
+        let (mut from, mut sc) = self.base_rel(false);
         let n = 1 + self.r.below(3) as usize;
         let mut proj = vec![]; let mut out: Scope = vec![];
-        let usable: Vec<usize> = (0..sc.len()).filter(|&i| (sc[i].ty != Ty::Bool || self.on("bool_key")) && (sc[i].ty != Ty::F64 || self.on("float_key"))).collect();
+        let usable_of = |g: &Self, sc: &Scope| -> Vec<usize> { (0..sc.len()).filter(|&i| (sc[i].ty != Ty::Bool || g.on("bool_key")) && (sc[i].ty != Ty::F64 || g.on("float_key"))).collect() };
+        let mut usable = usable_of(self, &sc);
+        if usable.is_empty() {
+            // a VALUES list with only BOOLEAN / DOUBLE columns: fall back to a base table (its id column is always usable)
+            let a = self.rel_alias();
+            sc = self.table_scope(0, &a);
+            from = Rel::Table { t: 0, name: self.cat.tables[0].name.clone(), alias: a };
+            usable = usable_of(self, &sc);
+        }
         for _ in 0..n {
             let i = *self.r.pick(&usable);
             let al = self.alias();
